@@ -6,7 +6,8 @@
 From FV Require Import Base.Prelude Model.Binding Proofs.BindingProofs.
 
 (* Lexically alpha-equivalent queries (binders renamed arbitrarily, inner parameters may start or
-   stop shadowing outer ones, repeated parameter names included) resolve to the same nameless term,
+   stop shadowing outer ones, repeated parameter names included; `aeq` relates a call `f(...)` only when
+   f is free on both sides, because the translator dispatches on that name) resolve to the same nameless term,
    for every query in which no lambda is applied directly to an unevaluated argument - i.e. every
    lambda is applied by Select/SelectMany/Where/Aggregate to translator values.  The statement holds
    for every fuel, so fuel exhaustion is the same on both sides. *)
@@ -67,13 +68,14 @@ Theorem C08_pipeline_rename : forall (s : string -> string) (K MO MC : list stri
 Proof. exact pipeline_rename_invariant. Qed.
 Print Assumptions C08_pipeline_rename.
 
-(* ... but they do not look at binding: a lambda parameter that carries the name of a known function
-   IS rewritten when it is called (the design document expected the opposite). *)
+(* ... but they do not look at binding, and neither does visit_Call: a name in func position is dispatched
+   on as a name.  Renaming the parameter f of `lambda f: f(1.0)` to sin (an injective renaming that touches no
+   free name of the query) turns a call the translator refuses into std::sin(1.0). *)
 Theorem C08_known_function_param_refuted :
-  exists q1 q2 c1 c2,
-    aeq [] [] q1 q2 /\ no_app q1 = true /\
-    resolve_top 20 (rewrite ["sin"] [] [] q1) = Some c1 /\
-    resolve_top 20 (rewrite ["sin"] [] [] q2) = Some c2 /\ c1 <> c2.
+  exists q c1 c2,
+    no_app q = true /\
+    resolve_top 20 (rewrite ["sin"] [] [] q) = Some c1 /\
+    resolve_top 20 (rewrite ["sin"] [] [] (map_names (swap "f" "sin") q)) = Some c2 /\ c1 <> c2.
 Proof. exact known_function_param_refuted. Qed.
 Print Assumptions C08_known_function_param_refuted.
 
@@ -98,11 +100,11 @@ Definition q_nested (outer inner : string) : expr :=
 Example C08_nonvacuous_shadow : aeq [] [] (q_nested "j" "t") (q_nested "j" "j") /\ no_app (q_nested "j" "t") = true.
 Proof.
   split; [|reflexivity]. unfold q_nested.
-  apply AE_call; [apply AE_free; reflexivity|]. constructor; [constructor|]. constructor; [|constructor].
-  apply AE_lam; [reflexivity|]. apply AE_call; [apply AE_free; reflexivity|]. constructor; [|constructor].
-  apply AE_call; [apply AE_free; reflexivity|]. constructor; [constructor|]. constructor; [|constructor].
+  apply AE_call_fn; [reflexivity|reflexivity|]. constructor; [constructor|]. constructor; [|constructor].
+  apply AE_lam; [reflexivity|]. apply AE_call_fn; [reflexivity|reflexivity|]. constructor; [|constructor].
+  apply AE_call_fn; [reflexivity|reflexivity|]. constructor; [constructor|]. constructor; [|constructor].
   apply AE_lam; [reflexivity|]. apply AE_op. constructor; [|repeat constructor].
-  apply AE_call; [|constructor]. apply AE_attr. apply AE_bound with (p := (1, 0)); reflexivity.
+  apply AE_call; [reflexivity| |constructor]. apply AE_attr. apply AE_bound with (p := (1, 0)); reflexivity.
 Qed.
 
 Example C08_nonvacuous_resolve :
